@@ -17,7 +17,7 @@ Strings(alpha, n) == UNION { [1..k -> alpha] : k \in 1..n }
 RepoAlpha == {"a", "Z", "7", "-", "<L>", "<N>", "<H>"}
 LabelAlpha == RepoAlpha \cup {"_", "<C>"}
 \* ... and of everything else (separators, hostile classes)
-AnyAlpha == LabelAlpha \cup {"/", ".", " ", ":", "#", "<M>", "<S>", "<Z>", "<O>", "<BAD>", "<LF>", "<NUL>"}
+AnyAlpha == LabelAlpha \cup {"/", ".", " ", ":", "#", "<M>", "<S>", "<Z>", "<O>", "<D>", "<BAD>", "<LF>", "<NUL>"}
 
 MinKsuid == S("000000000000000000000000000")
 SomeKsuid == S("1Jbb3SicFGoKB7JQJZdCCwdBQwE")
